@@ -7,13 +7,13 @@ tbl=subprocess.run(['python3','/verif/gen_design_tables.py','87'],capture_output
 summary=tbl.stderr.strip()
 intro=f"""### 8.7 Seeded changes: which check catches which
 
-180 changes were produced in five waves by sub-agents that saw only the property
+201 changes were produced in six waves by sub-agents that saw only the property
 text and a scratch worktree of `/repo` with every contract file removed (never
 `/verif`), each confirmed by `verify_seed.sh` (builds; the touched packages'
 existing tests pass; the agent's demonstration fails with the change and passes
 without), and kept under `/verif/seeded/<id>/` (`patch.diff`, `demo_test.go`,
 `meta.json`). Waves 2–4 were told what earlier waves had tried and asked for
-different functions and mechanisms; wave 5 was run on the repaired tree and pointed at the code the
+different functions and mechanisms; waves 5 and 6 were run on the repaired tree and pointed at the code the
 repairs of §8.5 had just added or changed. `run_seeds_list.sh` applies each to `/repo`,
 runs the property's quick check, undoes it at once, and regenerates the evidence
 on the unchanged tree. Result of the last full run: **{summary}**.
@@ -22,16 +22,16 @@ How the waves went, because it is the honest measure of the first contracts:
 wave 1 (75 changes) — 71 caught by the contracts as first written, the 4 misses
 fixed later; wave 2 (24, same eight properties, "pick different functions") —
 **4 caught, 20 missed**; wave 3 (33, the other eleven properties) — 16 caught, 17 missed;
-wave 4 (24) — 7 caught, 17 missed; wave 5 (24, against the repaired tree) — 16 caught, 8 missed.
+wave 4 (24) — 7 caught, 17 missed; wave 5 (24, against the repaired tree) — 16 caught, 8 missed; wave 6 (21, after the second audit pass) — 18 caught, 3 missed.
 After the repairs of §8.5 eight earlier seeds no longer applied; they were rebased by hand onto the
 repaired code, re-confirmed with `verify_seed.sh`, and every demonstration of the corpus was re-run on
 the repaired tree (all 156 pass without their change). Every miss was a function (or a clause of the property)
 the contracts did not yet reach, or a contract that restated the code's argument
 list instead of what the property demands of it. Each was answered by a new or
 stronger contract written from the property text, never by special-casing the
-seed; four engine features (`possible at`, `exhausted`, `athead`, `deferred`, §8.1) were
+seed; five engine features (`possible at`, `exhausted`, `athead`, `deferred`, `readsglobals`, §8.1) were
 added because whole classes of change — a narrowed guard, an early loop exit, a
-flag that must stay false, a release registered too late — cannot be stated with `assert at` alone. Reading
+flag that must stay false, a release registered too late, a behaviour keyed off a package-level table — cannot be stated with `assert at` alone. Reading
 code for the seeds is also what led to seven of the first ten genuine defects (§8.5
 items 11–18): three sub-agents' side remarks about the *unmodified* code were
 checked, turned into contracts, and confirmed. The caught changes are the
